@@ -92,6 +92,7 @@ def make(ccp, V, cfg, cid, n1, n2):
     if k in ('periodic_voltage_source', 'periodic_current_source'):
         A = V.val('A', 'r'); w0 = V.val('w0', 'pos'); phi = V.val('phi', 'ang'); wave = cfg['wave']
         volt = 'voltage' in k
+        if cfg.get('res', 'default') == 'default': V.assume_pos(w0 - 2e-3)
         c = ccp.periodic_voltage_source(lid, nodes, wavetype=wave, V=A, w=w0, phi=phi) if volt else \
             ccp.periodic_current_source(lid, nodes, wavetype=wave, I=A, w=w0, phi=phi)
         def exp(w, res):
